@@ -172,6 +172,39 @@ def h_fixed(ctx, il, n0, lm):
     _check_results(ctx, stats, reg, df, notional, rp, {"il": il, "n0": n0, "lm": lm, "fixed": True}, False)
 
 
+class VectorProduct(ScriptedProduct):
+    """payoff with two components (vector of strikes)"""
+
+    def __call__(self, underlying):
+        return self.notional * np.array([underlying, 2 * underlying + 1.0], dtype=object if V.is_sym(underlying) or V.is_sym(self.notional) else float)
+
+
+def replay_vector_payoff(sc):
+    ctxc = ConcreteCtx({}, {})
+    reg = Registry(ctxc)
+    cc = CR.ConvergenceCriteria(criteria=lambda a, ml, r: True, compute_mc_paths=lambda r, vl, cl: np.array([0] * len(vl)))
+    cfg = CFG.ConfigurationMultiLevel(convergence_rates=CFG.ConvergenceRates(alpha=1.0, beta=1.0, gamma=1.0), convergence_criteria=cc,
+                                      initial_level=1, maximum_level=1, initial_mc_paths=2, nb_of_processes=1)
+    cfg.initialisation_seed = lambda multiprocessing=False: None
+    eng = ME.Engine(cfg, ScriptedCoupling(reg, 0.9))
+    try:
+        eng.price(VectorProduct(2.0, dim=2), 0.1)
+    except Exception as e:
+        return True, f"multilevel Engine.price with a payoff of dimension 2 raises {type(e).__name__}: {str(e)[:120]}"
+    return False, "run completed"
+
+
+def h_vector_payoff(ctx):
+    eng, prod, reg, crit, df, notional = make_engine(ctx, 1, 2, 1, 1)
+    prod2 = VectorProduct(notional, dim=2)
+    try:
+        eng.price(prod2, ctx.real("rmse", 0))
+        ok = True
+    except (ValueError, TypeError) as e:
+        ok = False
+    ctx.prove("C05.vector_payoff_run_completes", ok, replay=(replay_vector_payoff, lambda m: {}), regions={"payoff_dimension_gt_1": True})
+
+
 def h_twin(ctx):
     """sensitivity twin: an oracle that forgets the discount factor must be caught"""
     eng, prod, reg, crit, df, notional = make_engine(ctx, 0, 2, 0, 1)
@@ -194,6 +227,7 @@ def harnesses(tier):
         hs.append(Harness(f"adaptive.L{il}.N{n0}.M{lm}.B{b}", h_adaptive, {"il": il, "n0": n0, "lm": lm, "bound": b}, max_paths=30000 if not q else 6000, batch=10))
     for il, n0, lm in ([(0, 2, 1), (1, 1, 2), (2, 2, 1)] if q else [(0, 2, 1), (1, 1, 2), (2, 2, 1), (0, 3, 3), (2, 1, 0), (3, 2, 2)]):
         hs.append(Harness(f"fixed.L{il}.N{n0}.M{lm}", h_fixed, {"il": il, "n0": n0, "lm": lm}, max_paths=2000))
+    hs.append(Harness("vector_payoff", h_vector_payoff, max_paths=200))
     hs.append(Harness("twin", h_twin, twin="must_fail"))
     return hs
 
